@@ -153,13 +153,16 @@ def check(P: Project, R: Report) -> None:
     def classes_in(type_text: str) -> List[str]:
         return [dotted[t] for t in re.findall(r"chuk_mcp(?:\.\w+)+", type_text or "") if t in dotted]
 
+    # the base class's own generic pass-through of **kwargs lives wherever the base class is defined (it may have been moved
+    # to a module of its own)
+    base_class_modules = {m_.name for m_ in P.modules.values() if any(isinstance(c_, ast.ClassDef) and c_.name == "McpPydanticBase" for c_ in ast.walk(m_.tree))}
     n_sites = 0
     seen_any = set()
     for c in facts["calls"]:
         if c["kind"] != "member":
             continue
         mod, fn = c["module"], c["function"]
-        if mod in SKIP_MODULES or (mod, fn) in SKIP_FUNCS:
+        if mod in SKIP_MODULES or (mod, fn) in SKIP_FUNCS or mod in base_class_modules:
             continue
         n_sites += 1
         R.call_sites += 1
@@ -286,6 +289,7 @@ def check(P: Project, R: Report) -> None:
     R.need(pyd_cfg is not None, "anchor: Pydantic-branch model_config not found")
     R.ob("R2", "base config (Pydantic): extra='allow'", pyd_cfg.get("extra") == "allow", base.rel, f"{pyd_cfg}")
     R.ob("R3", "base config (Pydantic): populate_by_name", pyd_cfg.get("populate_by_name") is True, base.rel, f"{pyd_cfg}")
+    R.need("McpPydanticBase" in classes, "anchor: fallback McpPydanticBase not found")
     fb = classes["McpPydanticBase"]
     fbm = {s.name: s for s in fb.body if isinstance(s, (ast.FunctionDef, ast.AsyncFunctionDef))}
     bfv = fbm.get("_build_field_values")
